@@ -32,6 +32,9 @@ inductive Op where
   | restart
   | genesis
   | unmodelled (k : String)
+  /-- a non-consensus execution of `inner` (CheckTx, gas simulation): runs on a branch of the committed
+      state that is thrown away -/
+  | sim (inner : Op)
   deriving Repr, Inhabited
 
 /-- what ExportGenesis → Validate → InitGenesis of the six modules preserves: every store that has
@@ -87,14 +90,22 @@ def stepC (e : Env) (s : State) : Op → Res × State
   | .restart => (.ok, s)
   | .genesis => (.ok, exportImport s)
   | .unmodelled _ => (.ok, s)
+  | .sim _ => (.ok, s)
 
-/-- one operation on the whole system: committed state + package variable -/
-def step (e : Env) (y : Sys) (op : Op) : Res × Sys :=
+/-- one consensus operation on the whole system: committed state + package variable -/
+def stepBase (e : Env) (y : Sys) (op : Op) : Res × Sys :=
   match op with
   | .delegate c v a => stakeStep y.st (stakeDelegate e y.st y.global c v a)
   | .undelegate c v a => stakeStep y.st (stakeUndelegate e y.st y.global c v a)
   | .restart => (.ok, ⟨y.st, 0⟩)
   | .genesis => (.ok, ⟨exportImport y.st, y.global⟩)
   | op => ((stepC e y.st op).1, ⟨(stepC e y.st op).2, y.global⟩)
+
+/-- one operation: a consensus operation, or a non-consensus execution (`sim`) whose writes to the
+    committed state are discarded — what it does to process memory (the package variable) is not -/
+def step (e : Env) (y : Sys) (op : Op) : Res × Sys :=
+  match op with
+  | .sim inner => (.ok, ⟨y.st, (stepBase e y inner).2.global⟩)
+  | op => stepBase e y op
 
 end SaoVerif
